@@ -691,8 +691,133 @@ func (x *world) updObs(before, after *snap, k int, op []string) string {
 	return fmt.Sprintf("%d %d %d %d %s", rw, cc, dp, cr, strings.Join(ds, ","))
 }
 
+// expectedClose recomputes, from the snapshot BEFORE a close, what the contract's own formulas pay
+// (settleOpenChallengesAndGetPassRates, challengePenaltyOnFinalization, challengeRewardOnFinalization,
+// payCancellationCharge): per blobber allocation the pass rate as succ/total, the challenge reward and the
+// cancellation charge share. Same float64 operations as the contract. Used as observed parameters of the model
+// (pass rate, charge) and by the C14 oracle (expected pay and refund).
+type closeExp struct {
+	succ, total uint64
+	reward, cc  uint64
+}
+
+func (x *world) expectedClose(before *snap, k int) (per []closeExp, refund uint64) {
+	a := before.S.Allocs[k]
+	now := x.now()
+	round := x.w.Round
+	const cct = 1200 // max_challenge_completion_rounds
+	tu := float64(timeUnit) * 1e9
+	dur := func(sec int64) float64 { return float64(sec*1e9) / tu }
+	per = make([]closeExp, len(a.BAs))
+	rates := make([]float64, len(a.BAs))
+	for i, d := range a.BAs {
+		succ, total, open := d.Success, d.Total, d.Open
+		if !a.ACPresent {
+			per[i].succ, per[i].total, rates[i] = 1, 1, 1
+			continue
+		}
+		for _, oc := range a.OpenCh {
+			if oc.BlobberID != d.BlobberID {
+				continue
+			}
+			open--
+			if oc.Round+cct < round {
+				// failed
+			} else {
+				succ++
+			}
+		}
+		if open > 0 {
+			succ += open
+		}
+		if total == 0 {
+			per[i].succ, per[i].total, rates[i] = 1, 1, 1
+		} else {
+			if succ < 0 {
+				succ = 0
+			}
+			per[i].succ, per[i].total = uint64(succ), uint64(total)
+			rates[i] = float64(succ) / float64(total)
+		}
+	}
+	var rewards uint64
+	for i, d := range a.BAs {
+		cv := d.CV
+		if d.LatestFinalized == 0 {
+			continue
+		}
+		if d.LatestSuccessful < d.LatestFinalized && a.Expiration >= d.LatestSuccessful {
+			rdtu := dur(a.Expiration - d.LatestSuccessful)
+			dtu := dur(d.LatestFinalized - d.LatestSuccessful)
+			if dtu > rdtu {
+				dtu = rdtu
+			}
+			move := uint64((dtu / rdtu) * float64(cv))
+			if move <= cv {
+				cv -= move
+			}
+		}
+		if now <= d.LatestFinalized || a.Expiration < d.LatestFinalized {
+			continue
+		}
+		rdtu := dur(a.Expiration - d.LatestFinalized)
+		dtu := dur(now - d.LatestFinalized)
+		if dtu > rdtu {
+			dtu = rdtu
+		}
+		move := uint64((dtu / rdtu) * float64(cv))
+		if a.UsedSize > 0 && a.CP > 0 && rates[i] > 0 {
+			per[i].reward = uint64(float64(move) * rates[i])
+			rewards += per[i].reward
+		}
+	}
+	wp := a.WritePool
+	if rewards <= a.CP {
+		wp += a.CP - rewards
+	}
+	var cost uint64
+	var totalPrice uint64
+	for _, d := range a.BAs {
+		cost += uint64(float64(d.WritePrice) * (float64(d.Size) / GiB))
+		totalPrice += d.WritePrice
+	}
+	charge := uint64(float64(cost) * 0.2)
+	used := a.MovedToChallenge - (a.MovedBack + (a.CP - min64(rewards, a.CP)))
+	if used < charge {
+		charge -= used
+		if wp < charge {
+			charge = wp
+		}
+		for i, d := range a.BAs {
+			w := float64(d.WritePrice) / float64(totalPrice)
+			per[i].cc = uint64(float64(charge) * w * rates[i])
+		}
+	}
+	refund = wp
+	for i, d := range a.BAs {
+		bi := x.blobIdx(d.BlobberID)
+		sp := before.S.Blobbers[bi].SP
+		st, _ := spStake(sp)
+		live := sp.Present && !sp.Dead && st >= sp.MinStake
+		_ = live
+		if per[i].cc <= refund {
+			refund -= per[i].cc
+		}
+	}
+	return per, refund
+}
+
+func min64(a, b uint64) uint64 {
+	if a < b {
+		return a
+	}
+	return b
+}
+
 // closeObs: X = tokens debited from the allocation's pools for blobbers (challenge rewards + cancellation charge)
-// = writePool + challengePool - refund; per blobber allocation dp:cr (stake slashed, amount credited).
+// = writePool + challengePool - refund; per blobber allocation dp:cr:succ:total:cc:rw — stake slashed, amount credited,
+// the pass rate the contract's settle step yields (succ/total), and the cancellation charge share and challenge
+// reward its formulas prescribe.
 func (x *world) closeObs(before, after *snap, k int) string {
 	if k >= len(before.S.Allocs) {
 		return "0 -"
@@ -708,12 +833,13 @@ func (x *world) closeObs(before, after *snap, k int) string {
 	if own >= 0 {
 		refund = after.Bal[own] - before.Bal[own]
 	}
+	exp, _ := x.expectedClose(before, k)
 	var parts []string
-	for _, d := range ba.BAs {
+	for n, d := range ba.BAs {
 		i := x.blobIdx(d.BlobberID)
 		bs, br := x.spOf(before, "b", i)
 		as, ar := x.spOf(after, "b", i)
-		parts = append(parts, fmt.Sprintf("%d:%d", bs-as, ar-br))
+		parts = append(parts, fmt.Sprintf("%d:%d:%d:%d:%d:%d", bs-as, ar-br, exp[n].succ, exp[n].total, exp[n].cc, exp[n].reward))
 	}
 	return fmt.Sprintf("%d %s", ba.WritePool+ba.CP-refund, strings.Join(parts, ","))
 }
